@@ -98,8 +98,8 @@ def run(rep, facts):
             if p0 is None:
                 rep.violation("R7.1", "run/handler-argument", "handler is not called with the Request built by Request::new", n.loc())
             else:
-                if not any((x[0] == 'call' and PARSE_REQUEST_HINT in x[1]) or
-                           (x[0] == 'agg' and x[1] in ('coroutine', 'closure') and ("Token::" + PARSE_REQUEST_HINT) in F.norm(str(x[2])))
+                if not any((x[0] == 'call' and x[1] in common.preamble_fns(facts)) or
+                           (x[0] == 'agg' and x[1] in ('coroutine', 'closure') and F.norm(str(x[2])).split("::{closure")[0] in common.preamble_fns(facts))
                            for x in ir.walk(p0)) and not any(
                         x[0] == 'call' and x[1] == E.INTO_STREAM for x in ir.walk(p0)):
                     rep.violation("R7.1", "run/request-parser-provenance",
@@ -333,7 +333,7 @@ def run(rep, facts):
                             rep.ok("R7.4", "close/no-keepconn-closes", "false edge returns Err(ConnectionReset) with no further event", n.loc())
     for n in g.all_nodes():
         nm = name_of(n)
-        if nm and nm.endswith("Token::parse_request") and n.frame is g.root:
+        if nm and nm in common.preamble_fns(facts) and n.frame is g.root:
             a0 = ir.peel(g.arg(n, 0))
             alts = list(a0[1]) if a0[0] == 'phi' else [a0]
             kinds = set()
